@@ -55,6 +55,10 @@ def showScs (o : Option (List Nat)) : String := match o with | none => "err" | s
 def showBool (o : Option Bool) : String := match o with | none => "err" | some b => if b then "true" else "false"
 /-- dalek's permissive `CompressedEdwardsY::decompress` on 32 bytes (what the scan applies to commitments) -/
 def decPerm (b : Bytes) : Option Ed.Pt := if b.length = 32 then Keys.decompressDalek (Ed.leNat b) else none
+/-- the 32 stored bytes of a `PublicKey` given as exactly 64 hex digits (`c10_derive_raw`) -/
+def rawKeyOf (h : String) : Option Bytes :=
+  let b := Hex.decode h
+  if h.length = 64 ∧ b.length = 32 then some b else none
 def scanErrName : Scan.ScanErr → String
   | .noTxPublicKey => "NoTxPublicKey"
   | .missingEcdhInfo => "MissingEcdhInfo"
@@ -78,6 +82,10 @@ open C10 in
 `c10_derive_sender <r> <V>` → point: `KeyGenerator::from_random(V, ·, r).rv`; same two sides;
 `c10_onetime <r> <V> <S> <n>` → point: `from_random(V, S, r).one_time_key(n)`; spec: sender's output key for (V, S);
 `c10_onetime_recv <v> <S> <R> <n>` → point: `from_key((v, S), R).one_time_key(n)`; spec: `derive_public_key(8vR, n, S)`;
+`c10_derive_raw <a> <32 bytes>` → point | `PANIC`: `from_key` on `PublicKey { point: CompressedEdwardsY(bytes) }` (public field, no
+  `from_slice`); model `deriveReceiverBytes refOps decPerm a bytes` — both `PublicKey::point()` calls with dalek's permissive
+  decompression, `none` = the `expect` panics — so non-canonical encodings that decompress (`edff…ff7f`, `0100…0080`) are compared
+  too; no spec side (the harness judges against dalek's `decompress` + `8a·B`);
 `c09_recover <v> <s> <R> <n> <i> <j>` → scalar: `KeyRecoverer::new((v, s), R).recover(n, (i, j))`;
   spec: `Hs(8vR ‖ n) + s'` mod l;
 `c11_sub_pub <v> <S> <i> <j>` → `<view> <spend>`: `get_public_keys`; spec: keys of `Spec.Sender.destAt`;
@@ -200,7 +208,12 @@ def stepC10 : Step
                      pure (rvnScalar refOps (deriveReceiver refOps v R) n)),
           showSc (do let v ← scalarOf v; let R ← ptSpec r; let n ← u64Of n
                      pure (Spec.Sender.derivationScalar refPrims (Spec.Sender.derivation refPrims v R) n)))
-  | ["c10_derive_raw", _, _] => some ("-", "-")
+  | ["c10_derive_raw", a, b] =>
+    -- `from_key` on a `PublicKey` built through its public field: the byte-level constructor model with the PERMISSIVE decoder of
+    -- `PublicKey::point()`; `err` = not a scalar / not 32 bytes of hex (no `PublicKey` value), `PANIC` = the `expect` of `point()`
+    some ((match scalarOf a, rawKeyOf b with
+           | some a, some w => (match deriveReceiverBytes refOps decPerm a w with | some rv => Hex.encode rv | none => "PANIC")
+           | _, _ => "err"), "-")
   | ["c11_scalar", v, i, j] =>
     some (showSc (do let v ← scalarOf v; let i ← u32Of i; let j ← u32Of j; pure (subScalar refOps v i j)),
           showSc (do let v ← scalarOf v; let i ← u32Of i; let j ← u32Of j; pure (Spec.Sender.subScalar refPrims v i j)))
